@@ -815,6 +815,63 @@ class Discharger:
         # same as discharge but lock unwraps are not asked again
         return self.discharge(site)
 
+    # ------------------------------------------------------------ attribution of sites in private helpers
+    def owner_id(self, body):
+        """the function a panic site is attributed to (violation keys, reviewed records): a private helper with exactly
+        one entry point (non-helper function that reaches it through helpers only) is folded into that entry point, so
+        that extracting code into a helper — or inlining it back — does not rename the site"""
+        if not hasattr(self, "_owner"):
+            self._owner = {}
+            self._callers = {}
+            for b2 in self.facts.bodies:
+                r2 = self.facts.body(b2.root) if b2.kind == "Closure" and b2.root else b2
+                if r2 is None:
+                    continue
+                for s2 in self.inter.sites(b2):
+                    c = self.inter.local_callee(s2)
+                    if c is not None and c.id != r2.id:
+                        self._callers.setdefault(c.id, set()).add(r2.id)
+        root = self.facts.body(body.root) if body.kind == "Closure" and body.root else body
+        if root is None:
+            return body.id
+        if root.id not in self._owner:
+            def is_helper(f):
+                return f.kind != "Closure" and f.vis != "pub" and not (f.impl and f.impl.get("trait")) and not f.trait_item_of
+            entries, seen, st = set(), {root.id}, [root]
+            while st:
+                f = st.pop()
+                cs = self._callers.get(f.id, set())
+                if not is_helper(f) or not cs:
+                    entries.add(f.id)
+                    continue
+                for cid in cs:
+                    if cid not in seen:
+                        seen.add(cid)
+                        cb = self.facts.body(cid)
+                        if cb is not None:
+                            st.append(cb)
+            self._owner[root.id] = next(iter(entries)) if len(entries) == 1 else root.id
+        own = self._owner[root.id]
+        if body.id.startswith(root.id) and own != root.id:
+            return own + body.id[len(root.id):]
+        return own if body is root else body.id
+
+    def owner_ordinal(self, site):
+        """ordinal of the site among equal descriptors attributed to the same owner (facts order)"""
+        own = self.owner_id(site.body)
+        n = 0
+        for b2 in self.facts.bodies:
+            if b2.impl and b2.impl.get("derived"):
+                continue
+            if self.owner_id(b2) != own:
+                continue
+            for s in inventory(self.facts, b2):
+                if b2 is site.body and s.bb == site.bb and s.kind == site.kind and s.desc == site.desc:
+                    return n
+                if s.desc == site.desc:
+                    n += 1
+        return n
+
     # ------------------------------------------------------------ reviewed records
     def site_ordinal(self, site):
         n = 0
@@ -827,6 +884,10 @@ class Discharger:
 
     def record_for(self, site):
         recs = self.records.get((site.body.id, site.desc, self.site_ordinal(site)))
+        if not recs:
+            own = self.owner_id(site.body)
+            if own != site.body.id:
+                recs = self.records.get((own, site.desc, self.owner_ordinal(site)))
         if not recs:
             return None
         failed = []
